@@ -84,6 +84,11 @@ func (s *Service) SignedBeaconBlock(ctx context.Context,
 				return
 			}
 			s.clientMonitor.ClientOperation(name, "signed beacon block", err == nil, time.Since(started))
+			if response == nil || response.Data == nil {
+				// A response without data is not a response we can use.
+				log.Warn().Dur("elapsed", time.Since(started)).Msg("Obtained empty signed beacon block response; ignoring")
+				return
+			}
 			log.Trace().Str("provider", name).Dur("elapsed", time.Since(started)).Msg("Obtained signed beacon block")
 
 			ch <- &signedBeaconBlockResp{
